@@ -495,16 +495,39 @@ func (c *Ctx) rulesR3net() {
 	}
 	// sites in updateClock or its hosted helpers, ordered through the
 	// instructions that stand for them in updateClock
-	var stores []ssa.Instruction
+	var stores, storesRaw []ssa.Instruction
 	for _, s := range c.innerSites(uc, "method:Store") {
 		args := s.Common().Args
 		if len(args) == 2 && fieldOf(args[0]) == fAS {
+			storesRaw = append(storesRaw, s)
 			if si := c.standIn(uc, s); si != nil {
 				stores = append(stores, si)
 			}
 		}
 	}
 	ph := c.standInSites(uc, prpc+":NetworkMachine.processHandlers")
+	phRaw := c.innerSites(uc, prpc+":NetworkMachine.processHandlers")
+	// both in one hosted helper: ordered inside it
+	if len(storesRaw) > 0 && len(phRaw) > 0 {
+		same := true
+		for _, x := range phRaw {
+			if x.Parent() != storesRaw[0].Parent() {
+				same = false
+			}
+		}
+		for _, x := range storesRaw {
+			if x.Parent() != storesRaw[0].Parent() {
+				same = false
+			}
+		}
+		if same {
+			stores = storesRaw
+			ph = nil
+			for _, x := range phRaw {
+				ph = append(ph, x)
+			}
+		}
+	}
 	if len(stores) < 1 || len(ph) < 1 {
 		c.undecided("C01.net: activeStates.Store / processHandlers not found in updateClock")
 		return
@@ -620,81 +643,92 @@ func (c *Ctx) rulesR3hello() {
 		return
 	}
 	n := 0
-	for _, b := range rh.Blocks {
-		for _, ins := range b.Instrs {
-			st, ok := ins.(*ssa.Store)
-			if !ok {
-				continue
-			}
-			ia, ok := st.Addr.(*ssa.IndexAddr)
-			if !ok {
-				continue
-			}
-			if k, isK := constInt(st.Val); !isK || k != 0 {
-				continue
-			}
-			if nt := namedOf(ia.X.Type()); nt == nil || nt.Obj().Name() != "Time" {
-				continue
-			}
-			n++
-			bad := ""
-			for _, g := range guardsOf(b) {
-				cond, _ := stripNot(g.Cond)
-				okc := false
-				// req.SyncSchema
-				if fl := loadOfField(cond); fl != nil && fl.Name() == "SyncSchema" {
-					okc = true
+	for _, hf := range c.hostedFns(rh) {
+		for _, b0 := range hf.Blocks {
+			for _, ins := range b0.Instrs {
+				st, ok := ins.(*ssa.Store)
+				if !ok {
+					continue
 				}
-				// loop bound
-				if bo, ok := cond.(*ssa.BinOp); ok && (bo.Op == token.LSS || bo.Op == token.GTR) {
-					isIdx := func(v ssa.Value) bool {
-						if b2, ok := v.(*ssa.BinOp); ok {
-							v = b2.X
+				ia, ok := st.Addr.(*ssa.IndexAddr)
+				if !ok {
+					continue
+				}
+				if k, isK := constInt(st.Val); !isK || k != 0 {
+					continue
+				}
+				if nt := namedOf(ia.X.Type()); nt == nil || nt.Obj().Name() != "Time" {
+					continue
+				}
+				n++
+				bad := ""
+				for _, g := range c.guardsHosted(ins, rh) {
+					// a guard of the caller is judged at the call that stands for
+					// the helper; a helper's parameter is what the caller passes
+					b := b0
+					if g.If != nil && g.If.Block().Parent() != b0.Parent() {
+						if si := c.standIn(g.If.Block().Parent(), ins); si != nil {
+							b = si.Block()
 						}
-						ph, ok := v.(*ssa.Phi)
-						return ok && ph.Comment == "rangeindex"
 					}
-					if isIdx(bo.X) || isIdx(bo.Y) {
+					cond, _ := stripNot(g.Cond)
+					cond = c.hostedArg(cond, rh)
+					okc := false
+					// req.SyncSchema
+					if fl := loadOfField(cond); fl != nil && fl.Name() == "SyncSchema" {
 						okc = true
 					}
-				}
-				// slices.Contains(trackedStateIdxs, i)
-				if call, ok := cond.(*ssa.Call); ok && calleeName(&call.Call) == "Contains" {
-					okc = true
-				}
-				if !okc {
-					// early exits of the function (state checks, access control) are fine; a
-					// condition on any other field of the hello request is what narrows the branch
-					reqDep := false
-					valueTree(g.Cond, 8, func(x ssa.Value) {
-						if fl := fieldOf(x); fl != nil && fl.Name() != "SyncSchema" {
-							if nt := namedOf(fieldOwnerOf(x)); nt != nil && nt.Obj().Name() == "MsgCliHello" {
-								reqDep = true
+					// loop bound
+					if bo, ok := cond.(*ssa.BinOp); ok && (bo.Op == token.LSS || bo.Op == token.GTR) {
+						isIdx := func(v ssa.Value) bool {
+							if b2, ok := v.(*ssa.BinOp); ok {
+								v = b2.X
 							}
+							ph, ok := v.(*ssa.Phi)
+							return ok && ph.Comment == "rangeindex"
 						}
-					})
-					// early exit: the other outcome never joins the path the site is on
-					if reqDep && g.If != nil {
-						ib := g.If.Block()
-						other := ib.Succs[0]
-						if g.Pol {
-							other = ib.Succs[1]
+						if isIdx(bo.X) || isIdx(bo.Y) {
+							okc = true
 						}
-						joins := false
-						ro, rs := blockReach(other), blockReach(b)
-						ro[other] = true
-						for x := range ro {
-							if rs[x] || x == b {
-								joins = true
+					}
+					// slices.Contains(trackedStateIdxs, i)
+					if call, ok := cond.(*ssa.Call); ok && calleeName(&call.Call) == "Contains" {
+						okc = true
+					}
+					if !okc {
+						// early exits of the function (state checks, access control) are fine; a
+						// condition on any other field of the hello request is what narrows the branch
+						reqDep := false
+						valueTree(g.Cond, 8, func(x ssa.Value) {
+							if fl := fieldOf(x); fl != nil && fl.Name() != "SyncSchema" {
+								if nt := namedOf(fieldOwnerOf(x)); nt != nil && nt.Obj().Name() == "MsgCliHello" {
+									reqDep = true
+								}
 							}
-						}
-						if joins {
-							bad = render(g.Cond)
+						})
+						// early exit: the other outcome never joins the path the site is on
+						if reqDep && g.If != nil {
+							ib := g.If.Block()
+							other := ib.Succs[0]
+							if g.Pol {
+								other = ib.Succs[1]
+							}
+							joins := false
+							ro, rs := blockReach(other), blockReach(b)
+							ro[other] = true
+							for x := range ro {
+								if rs[x] || x == b {
+									joins = true
+								}
+							}
+							if joins {
+								bad = render(g.Cond)
+							}
 						}
 					}
 				}
+				c.check(bad == "", "C10.zero", fmt.Sprintf("RemoteHello: zeroing of untracked clocks#%d depends on SyncSchema only", n), ins.Pos(), "additionally conditional on "+bad+": some schema-synced clients get the real ticks of states they do not track")
 			}
-			c.check(bad == "", "C10.zero", fmt.Sprintf("RemoteHello: zeroing of untracked clocks#%d depends on SyncSchema only", n), ins.Pos(), "additionally conditional on "+bad+": some schema-synced clients get the real ticks of states they do not track")
 		}
 	}
 	if n < 1 {
@@ -1423,10 +1457,10 @@ func (c *Ctx) rulesR3misc(only string) {
 		if uc != nil {
 			nt := 0
 			for _, m := range []string{"TransitionInit", "TransitionStart", "TransitionEnd"} {
-				for i, s := range c.sitesIn(uc, "iface:Tracer."+m) {
+				for i, s := range c.innerSites(uc, "iface:Tracer."+m) {
 					nt++
 					bad := ""
-					for _, g := range guardsOf(s.Block()) {
+					for _, g := range c.guardsHosted(s, uc) {
 						cond, _ := stripNot(g.Cond)
 						if bo, ok := cond.(*ssa.BinOp); ok && (bo.Op == token.LSS || bo.Op == token.GTR) {
 							isIdx := false
@@ -1775,7 +1809,7 @@ func (c *Ctx) rulesR3batch3(only string) {
 		if uc := c.fnOpt(prpc + ":NetworkMachine.updateClock"); uc != nil {
 			fAS := c.field(prpc, "NetworkMachine", "activeStates")
 			n := 0
-			for i, s := range c.sitesIn(uc, pm+":StatesDiff") {
+			for i, s := range c.innerSites(uc, pm+":StatesDiff") {
 				n++
 				fromPublished := false
 				for _, a := range s.Common().Args {
